@@ -355,3 +355,29 @@ def d_parallel_history_done_shallow(): return _par_hist_done(False, False)
 ALL += [d_parallel_history_done_deep, d_parallel_history_done_shallow]
 WORDS["d_parallel_history_done_deep"] = [["go"], ["out", "back", "go"]]
 WORDS["d_parallel_history_done_shallow"] = [["go"], ["out", "back", "go"]]
+
+
+def d_delayed_cancel_prefix():
+    # sendids that are prefixes of one another: <cancel sendid="t1"/> removes t1 only, t10 still arrives
+    a = State(name="a", onentry=[[send("late", delay=300, sid="t1"), send("soon", delay=40, sid="t10"), send("mid", delay=60, sid="t")]],
+              trans=[T("c", [], content=[cancel("t1")]), T("late", ["b"]), T("soon", [], content=[log("soon")]), T("mid", [], content=[log("mid")])])
+    b = State(name="b")
+    return Chart(Scxml(a, b), tags=["delayed", "cancel"])
+
+
+ALL += [d_delayed_cancel_prefix]
+WORDS["d_delayed_cancel_prefix"] = [["c"], []]
+
+
+def d_error_exit_nested():
+    # exit handlers at termination (cancel) and in a micro-step: a failing <onexit> block ends that block only;
+    # the state's next block and the ancestors' handlers still run
+    c = State(name="c", onexit=[[log("c1"), fault("sendtype"), log("never1")], [log("c2")]], trans=[T("e", ["d"])])
+    d = State(name="d", onexit=[[log("d1")]])
+    p = State(c, d, name="p", onexit=[[log("p1"), fault("expr"), log("never2")], [log("p2")]], trans=[T("f", ["q"])])
+    q = State(name="q")
+    return Chart(Scxml(p, q, data=[("x", lit(0))]), vars_=["x"], tags=["error", "exit"])
+
+
+ALL += [d_error_exit_nested]
+WORDS["d_error_exit_nested"] = [["f"], ["e", "f"], []]
